@@ -337,16 +337,8 @@ def pred_near(ctx, finder, variant, q, r, b):
 
 
 def tie36(ctx, finder, e, out, klass):
-    """(S): the model gets y = epoch.year() of the implementation; compares Epoch(jde0 + corr).jde() [and elon]."""
-    try:
-        y = e.year()
-    except Exception:  # noqa  (Epoch.year fails beyond year 9999; nothing to tie)
-        return
-    ctx.case('finder', [finder, y], out, q=None, klass=klass)
-
-
-def tie36j(ctx, finder, e, out, klass):
-    """(S), whole chain: the model gets the `_jde` of the query epoch and runs its own Epoch.year() too."""
+    """(S), the whole chain: the model gets the `_jde` of the query epoch and runs Epoch.year(), the period count,
+    the series and the final Epoch(jde0 + corr) itself; compared bit for bit with what the implementation returned."""
     ctx.case('finder_jde', [finder, e.jde()], out, q=None, klass=klass)
 
 
@@ -395,9 +387,7 @@ def sweep(ctx, finder, variant, q_start, q_end, step, tie_every=1, event_every=0
         if kind == 'ch36':
             out, res = impl36(finder, e)
             if i % tie_every == 0:
-                tie36(ctx, finder, e, out, 'finder/' + klass)
-            if i % (3 * tie_every) == 0:
-                tie36j(ctx, finder, e, out, 'finder_jde/' + klass)
+                tie36(ctx, finder, e, out, 'finder_jde/' + klass)
             if res is None:
                 ctx.predicate('returns_instant', False, [finder, variant, qq], out, 'returns_instant/' + finder)
         else:
@@ -409,7 +399,7 @@ def sweep(ctx, finder, variant, q_start, q_end, step, tie_every=1, event_every=0
                 ctx.predicate('returns_instant', True, [finder, variant, qq], None, 'returns_instant/' + finder)
                 res = r
             if kind == 'pa' and jde1 is not None and i % tie_every == 0:
-                ctx.case('pa_jde', [finder, e.year(), bool(variant)], enc(jde1), q=None, klass='pa_jde/' + klass)
+                ctx.case('pa_jde', [finder, e.jde(), bool(variant)], enc(jde1), q=None, klass='pa_jde/' + klass)
         if res is not None:
             pred_near(ctx, finder, variant, qq, res[0], b)
             if prev is not None:
@@ -463,8 +453,7 @@ def range_checks(ctx, finder, n):
         ok = (out == 'E:ValueError') if outside else (res is not None)
         ctx.predicate('range_refusal', ok, [finder, None, qq], {'outside': outside, 'got': out}, 'range_refusal/' + (
             'outside' if outside else 'inside'))
-        tie36(ctx, finder, e, out, 'finder/range')
-        tie36j(ctx, finder, e, out, 'finder_jde/range')
+        tie36(ctx, finder, e, out, 'finder_jde/range')
 
 
 def leap_day_checks(ctx, finder, variant, years):
@@ -483,8 +472,7 @@ def leap_day_checks(ctx, finder, variant, years):
             try:
                 if kind == 'ch36':
                     out, res = impl36(finder, e)
-                    tie36(ctx, finder, e, out, 'finder/leap_day')
-                    tie36j(ctx, finder, e, out, 'finder_jde/leap_day')
+                    tie36(ctx, finder, e, out, 'finder_jde/leap_day')
                     if res is None:
                         raise RuntimeError(out)
                     r = res[0]
@@ -521,7 +509,7 @@ def tasks(ctx):
         B = b[f]['B']
         nper = n(14, 30)
         for (lo, hi) in era_starts(ctx, B, nper):
-            T.append((sweep, (ctx, f, None, lo, hi, B / 20.0, 2 if sc == 1.0 else 4, 90 if thorough else int(120 * sc), 'era')))
+            T.append((sweep, (ctx, f, None, lo, hi, B / 20.0, 1 if sc == 1.0 else 3, 90 if thorough else int(120 * sc), 'era')))
         if thorough and ctx.scale <= 1.0:
             # the whole of -2000..4000 in steps of 1/20 period, in 6 slices (the sweeps are independent)
             for s in range(6):
@@ -563,13 +551,12 @@ def random_queries(ctx, finder, variant, n, n_events):
         qq = e.jde()
         if kind == 'ch36':
             out, res = impl36(finder, e)
-            tie36(ctx, finder, e, out, 'finder/random')
-            tie36j(ctx, finder, e, out, 'finder_jde/random')
+            tie36(ctx, finder, e, out, 'finder_jde/random')
         else:
             r, jde1 = implpa(finder, variant, e)
             res = None if isinstance(r, Exception) else r
             if kind == 'pa' and jde1 is not None:
-                ctx.case('pa_jde', [finder, e.year(), bool(variant)], enc(jde1), q=None, klass='pa_jde/random')
+                ctx.case('pa_jde', [finder, e.jde(), bool(variant)], enc(jde1), q=None, klass='pa_jde/random')
             out = repr(r)
         record(ctx, 'returns_instant', res is not None, [finder, variant, qq], None if res else out,
                'returns_instant/' + finder)
